@@ -356,8 +356,24 @@ fn miri_check(threads: &[Vec<Value>], miri_seed: u64, rate: &str, cfg: &Cfg, ora
         }
         return MiriVerdict::Violation("miri:abnormal-termination".into(), format!("the interpreted process did not finish normally: {}", e), Value::Null);
     };
-    for (t, calls) in threads.iter().enumerate() {
+    // the worker appends the sequential epilogue (every distinct call once more) as a last list
+    let mut distinct: Vec<Value> = vec![];
+    for t in threads {
+        for c in t {
+            if !distinct.contains(c) {
+                distinct.push(c.clone());
+            }
+        }
+    }
+    let mut all: Vec<Vec<Value>> = threads.to_vec();
+    let mut refs = refs;
+    refs.push(distinct.iter().map(|c| oracle.reference(c)).collect());
+    all.push(distinct);
+    for (t, calls) in all.iter().enumerate() {
         for (i, _) in calls.iter().enumerate() {
+            if res["outcomes"][t][i].is_null() {
+                continue;
+            }
             let got = Out::from_json(&res["outcomes"][t][i]);
             let exp = &refs[t][i];
             if exp.kind() == "crash" {
@@ -370,7 +386,7 @@ fn miri_check(threads: &[Vec<Value>], miri_seed: u64, rate: &str, cfg: &Cfg, ora
             if !got.same(exp) && !same_io_failure {
                 return MiriVerdict::Violation(
                     format!("miri:outcome-mismatch:{}->{}", exp.kind(), got.kind()),
-                    format!("thread {} call {}: expected {} got {} (call order {})", t, i, exp.to_json(), got.to_json(), res["call_order"]),
+                    format!("{} call {}: expected {} got {} (call order {})", if t == threads.len() { "sequential epilogue".to_string() } else { format!("thread {}", t) }, i, exp.to_json(), got.to_json(), res["call_order"]),
                     res.clone(),
                 );
             }
